@@ -36,7 +36,7 @@ KERNELS = {
     "C13": ["k_map_merge"],
     "C12": ["k_numeric_cmp", "k_value_eq_symmetric"],
     "C14": ["k_is_true", "k_and_or", "k_binop_short_circuit", "k_not"],
-    "C16": ["k_set_variable"],
+    "C16": ["k_set_variable", "k_loop_scopes"],
     "C17": ["k_for_bounds", "k_if_dispatch"],
     "C36": ["k_comment_dispatch", "k_module_init"],
     "C37": ["k_do_use_prefix", "k_use_with"],
@@ -504,6 +504,13 @@ STRUCTURAL_PROBES["k_bubble"] = [
     ("a { b: c; @font-face { d: e } f: g }", "a { b: c; } @font-face { d: e; } a { f: g; }"),
     ("a { b: c; @foo bar { d: e } f: g }", "a { b: c; } @foo bar { a { d: e; } } a { f: g; }"),
     ("a { b: c; d { e: f } }", "a { b: c; } a d { e: f; }"),
+]
+STRUCTURAL_PROBES["k_loop_scopes"] = [
+    ("$i: outer; a { @for $i from 1 through 2 { b: $i } c: $i }", "a { b: 1; b: 2; c: outer; }"),
+    ("$x: outer; a { @each $x in 1 2 { b: $x } c: $x }", "a { b: 1; b: 2; c: outer; }"),
+    ("a { @each $k, $v in (p: 1, q: 2) { #{$k}: $v } }", "a { p: 1; q: 2; }"),
+    ("a { @for $i from 1 through 2 { $t: $i * 2; b: $t } }", "a { b: 2; b: 4; }"),
+    ("$n: 0; @while $n < 2 { $n: $n + 1 !global; a { b: $n } }", "a { b: 1; } a { b: 2; }"),
 ]
 STRUCTURAL_PROBES["k_module_init"] = [
     (({"a.scss": '@use "lib";\n.main { c: d }\n', "_lib.scss": "/* hello */\n.lib { /* in rule */ a: b }\n"}, "[compressed]a.scss"), ".lib{a:b}.main{c:d}"),
